@@ -107,10 +107,12 @@ def layout_table():
         for v in variants:
             if v in RECURSIVE:
                 seen_rec.add(v)
-                if v == "Array" and not re.search(r"size\s*:\s*\w+\.size\s*\*\s*\(\s*\*\s*n\s+as\s+u32\s*\)", expr):
-                    raise ExtractError("layout_of: Array arm is no longer `size: el.size * (*n as u32)`")
-                if v == "Array" and not re.search(r"align\s*:\s*\w+\.align\b", expr):
-                    raise ExtractError("layout_of: Array arm no longer inherits the element alignment")
+                if v == "Array" and not re.search(r"array_layout\s*\(\s*layout_of\s*\(\s*inner\s*\)\s*,\s*\*n\s*\)", expr):
+                    raise ExtractError("layout_of: Array arm is no longer `array_layout(layout_of(inner), *n)` (checked u32 size)")
+                if v == "Array":
+                    ab = _body_of(txt, r"fn\s+array_layout\s*\([^)]*\)\s*->\s*Option<TypeLayout>\s*\{", "fn array_layout in air/src/layout.rs")
+                    if not (re.search(r"checked_mul\s*\(\s*n\s*\)", ab) and "u32::try_from" in ab and re.search(r"align\s*:\s*\w+\.align\b", ab)):
+                        raise ExtractError("array_layout is no longer a checked u64 multiplication narrowed with u32::try_from, inheriting the element alignment")
                 if v == "Struct" and "panic!" not in expr:
                     raise ExtractError("layout_of: Struct arm no longer panics (model assumes it needs program context)")
                 continue
